@@ -5,6 +5,11 @@ pub mod c02;
 pub mod c03;
 pub mod c04;
 pub mod c06;
+pub mod c07;
+pub mod c08;
+pub mod c09;
+pub mod c10;
+pub mod io_common;
 pub mod c15;
 pub mod c19;
 pub mod c20;
@@ -15,5 +20,5 @@ pub mod c04_positer;
 use crate::run::Property;
 
 pub fn all() -> Vec<&'static dyn Property> {
-    vec![&c01::C01, &c02::C02, &c03::C03, &c04::C04, &c06::C06, &c15::C15, &c19::C19, &c20::C20, &hist_props::C05, &hist_props::C11, &hist_props::C12, &hist_props::C13, &hist_props::C14, &hist_props::C18]
+    vec![&c01::C01, &c02::C02, &c03::C03, &c04::C04, &c06::C06, &c07::C07, &c08::C08, &c09::C09, &c10::C10, &c15::C15, &c19::C19, &c20::C20, &hist_props::C05, &hist_props::C11, &hist_props::C12, &hist_props::C13, &hist_props::C14, &hist_props::C18]
 }
